@@ -107,6 +107,30 @@ func streamSettingRounds(r *rand.Rand, i int, tier string) *Case {
 		}
 		return out
 	}
+	// a third run: one reconcile (of a setting whose stored status is NOT valid) meets a failed List —
+	// of the nodes or of the settings; it must not conclude "valid" from what it could not read
+	faultedValid := false
+	{
+		wl := &writeLog{}
+		cl := loggingClient(copyObjs(), wl, nil)
+		var victim string
+		for k := range settings {
+			if settings[k].Status.Status != edsv1.ExtendedDaemonsetSettingStatusValid {
+				victim = settings[k].Name
+			}
+		}
+		if victim != "" {
+			lf := &listFaultClient{Client: cl, failKind: pick(r, "NodeList", "ExtendedDaemonsetSettingList")}
+			rec, _ := settingctl.NewReconciler(settingctl.ReconcilerOptions{}, lf, theScheme, logr.Discard(), record.NewFakeRecorder(1000))
+			Recovered(func() {
+				_, _ = rec.Reconcile(context.TODO(), reconcile.Request{NamespacedName: types.NamespacedName{Namespace: testNS, Name: victim}})
+			})
+			after := &edsv1.ExtendedDaemonsetSetting{}
+			if err := cl.Get(context.TODO(), types.NamespacedName{Namespace: testNS, Name: victim}, after); err == nil {
+				faultedValid = after.Status.Status == edsv1.ExtendedDaemonsetSettingStatusValid
+			}
+		}
+	}
 	s1, p1, f1 := runSettingRound(copyObjs(), o1)
 	s2, p2, f2 := runSettingRound(copyObjs(), o2)
 	cat := []string{fmt.Sprintf("settings:%d", ns)}
@@ -119,5 +143,5 @@ func streamSettingRounds(r *rand.Rand, i int, tier string) *Case {
 	cat = append(cat, fmt.Sprintf("valid:%d", nvalid))
 	_ = corev1.NodeList{}
 	return &Case{Fn: "setting_rounds", In: map[string]interface{}{"settings": cs, "nodes": cn, "order1": o1, "order2": o2},
-		Out: map[string]interface{}{"after1": s1, "after2": s2, "panic": p1 || p2, "foreign": append(f1, f2...)}, Cat: cat}
+		Out: map[string]interface{}{"after1": s1, "after2": s2, "panic": p1 || p2, "foreign": append(f1, f2...), "faultedValid": faultedValid}, Cat: cat}
 }
